@@ -44,11 +44,12 @@ theorem encOpt_length_pos (d : Nat) (v : Bytes) : (Spec.encOpt d v).length ≠ 0
   rw [encOpt_length]; omega
 
 theorem absPlace_cases (ms : Nat) (a : Msg) (n : Nat) (v : Bytes) :
-    ((absPlace ms a n v).1 ≠ 0 ∧ (absPlace ms a n v).2 = { a with opts := Spec.insertStable n v a.opts }) ∨
+    ((absPlace ms a n v).1 = (Spec.encOpt (n - prevNum n a.opts) v).length ∧ (absPlace ms a n v).1 ≠ 0 ∧
+      (absPlace ms a n v).2 = { a with opts := Spec.insertStable n v a.opts }) ∨
     ((absPlace ms a n v).1 = 0 ∧ (absPlace ms a n v).2 = a ∧ ms ≠ 0) := by
   unfold absPlace
   split
-  · exact Or.inl ⟨encOpt_length_pos _ _, rfl⟩
+  · exact Or.inl ⟨rfl, encOpt_length_pos _ _, rfl⟩
   · rename_i h
     exact Or.inr ⟨rfl, rfl, fun h0 => h (Or.inl h0)⟩
 
@@ -57,7 +58,7 @@ def AddOutcome (ms : Nat) (a : Msg) (n : Nat) (v : Bytes) (r : Nat × Msg) : Pro
   (r.1 ≠ 0 ∧ ∃ hop : Bool, (hop = true → Spec.hopApplies a.code n a.opts = true) ∧
       r.2 = { a with opts := Spec.addSem hop n v a.opts }) ∨
   (r.1 = 0 ∧ r.2 = a ∧ (v.length > 65804 ∨ (n = lastNum a.opts ∧ ¬ repeatable n = true) ∨ ms ≠ 0)) ∨
-  (r.1 = 0 ∧ Spec.hopApplies a.code n a.opts = true ∧ r.2 = { a with opts := Spec.insertStable 16 [16] a.opts })
+  (r.1 = 0 ∧ Spec.hopApplies a.code n a.opts = true ∧ r.2 = { a with opts := Spec.insertStable 16 [16] a.opts } ∧ ms ≠ 0)
 
 theorem absAdd_cases (ms : Nat) (a : Msg) (n : Nat) (v : Bytes) : AddOutcome ms a n v (absAdd ms a n v) := by
   unfold absAdd AddOutcome
@@ -69,17 +70,17 @@ theorem absAdd_cases (ms : Nat) (a : Msg) (n : Nat) (v : Bytes) : AddOutcome ms 
     · rw [if_neg hrep]
       by_cases hhop : Spec.hopApplies a.code n a.opts = true
       · rw [if_pos hhop]
-        rcases absPlace_cases ms a 16 [16] with ⟨_, h2⟩ | ⟨_, h2, _⟩
+        rcases absPlace_cases ms a 16 [16] with ⟨_, _, h2⟩ | ⟨_, h2, _⟩
         · rw [h2]
-          rcases absPlace_cases ms { a with opts := Spec.insertStable 16 [16] a.opts } n v with ⟨k1, k2⟩ | ⟨k1, k2, _⟩
+          rcases absPlace_cases ms { a with opts := Spec.insertStable 16 [16] a.opts } n v with ⟨_, k1, k2⟩ | ⟨k1, k2, k3⟩
           · exact Or.inl ⟨k1, true, fun _ => hhop, by rw [k2]; rfl⟩
-          · exact Or.inr (Or.inr ⟨k1, hhop, k2⟩)
+          · exact Or.inr (Or.inr ⟨k1, hhop, k2, k3⟩)
         · rw [h2]
-          rcases absPlace_cases ms a n v with ⟨k1, k2⟩ | ⟨k1, k2, k3⟩
+          rcases absPlace_cases ms a n v with ⟨_, k1, k2⟩ | ⟨k1, k2, k3⟩
           · exact Or.inl ⟨k1, false, (fun h => by cases h), by rw [k2]; rfl⟩
           · exact Or.inr (Or.inl ⟨k1, k2, Or.inr (Or.inr k3)⟩)
       · rw [if_neg hhop]
-        rcases absPlace_cases ms a n v with ⟨k1, k2⟩ | ⟨k1, k2, k3⟩
+        rcases absPlace_cases ms a n v with ⟨_, k1, k2⟩ | ⟨k1, k2, k3⟩
         · exact Or.inl ⟨k1, false, (fun h => by cases h), by rw [k2]; rfl⟩
         · exact Or.inr (Or.inl ⟨k1, k2, Or.inr (Or.inr k3)⟩)
 
@@ -90,7 +91,7 @@ theorem absInsert_cases (ms : Nat) (a : Msg) (n : Nat) (v : Bytes) : AddOutcome 
   · rw [if_neg hv]
     split
     · exact absAdd_cases ms a n v
-    · rcases absPlace_cases ms a n v with ⟨k1, k2⟩ | ⟨k1, k2, k3⟩
+    · rcases absPlace_cases ms a n v with ⟨_, k1, k2⟩ | ⟨k1, k2, k3⟩
       · exact Or.inl ⟨k1, false, (fun h => by cases h), by rw [k2]; rfl⟩
       · exact Or.inr (Or.inl ⟨k1, k2, Or.inr (Or.inr k3)⟩)
 
@@ -108,13 +109,13 @@ theorem absCall_step (ms : Nat) (a : Msg) (c : Call) : Step a c (absCall ms a c)
       (if a.payload ≠ [] then (0, a) else absAdd ms a n v).2
     split
     · exact Step.refused
-    · rcases absAdd_cases ms a n v with ⟨k1, hop, k2, k3⟩ | ⟨k1, k2, _⟩ | ⟨k1, k2, k3⟩
+    · rcases absAdd_cases ms a n v with ⟨k1, hop, k2, k3⟩ | ⟨k1, k2, _⟩ | ⟨k1, k2, k3, _⟩
       · rw [k3]; exact Step.accepted _ hop k1 k2
       · rw [k1, k2]; exact Step.refused
       · rw [k1, k3]; exact Step.leftover k2
   | insertOption n v =>
     show Step a (.insertOption n v) (absInsert ms a n v).1 (absInsert ms a n v).2
-    rcases absInsert_cases ms a n v with ⟨k1, hop, k2, k3⟩ | ⟨k1, k2, _⟩ | ⟨k1, k2, k3⟩
+    rcases absInsert_cases ms a n v with ⟨k1, hop, k2, k3⟩ | ⟨k1, k2, _⟩ | ⟨k1, k2, k3, _⟩
     · rw [k3]; exact Step.accepted _ hop k1 k2
     · rw [k1, k2]; exact Step.refused
     · rw [k1, k3]; exact Step.leftover k2
@@ -140,7 +141,7 @@ theorem absCall_step (ms : Nat) (a : Msg) (c : Call) : Step a c (absCall ms a c)
           intro hop; simp [callSem, Spec.applyEdit, hh]
         have hdom : hopDomain a (.updateOption n v) = Spec.hopApplies a.code n a.opts := by
           simp [hopDomain, hh]
-        rcases absInsert_cases ms a n v with ⟨k1, hop, k2, k3⟩ | ⟨k1, k2, _⟩ | ⟨k1, k2, k3⟩
+        rcases absInsert_cases ms a n v with ⟨k1, hop, k2, k3⟩ | ⟨k1, k2, _⟩ | ⟨k1, k2, k3, _⟩
         · rw [k3, ← hsem hop]; exact Step.accepted _ hop k1 (by rw [hdom]; exact k2)
         · rw [k1, k2]; exact Step.refused
         · rw [k1, k3]; exact Step.leftover (by rw [hdom]; exact k2)
